@@ -50,7 +50,8 @@ func c06EntityOtherCase(i int) string {
 }
 func c06Locs(i int) []string {
 	b := c06SPBase(i)
-	return []string{b + "/saml/acs", b + "/saml/acs2", b + "/saml/acs3", b + "/alt/acs"}
+	// the third one needs escaping wherever it is written into markup
+	return []string{b + "/saml/acs", b + "/saml/acs2", b + "/index.php?option=com_saml&task=acs", b + "/alt/acs"}
 }
 
 type c06ACS struct {
@@ -89,6 +90,9 @@ type c06Sess struct {
 	Groups int      `json:"groups"`
 	Custom int      `json:"custom"`
 	Format string   `json:"nameid_format,omitempty"`
+	// ExpiresInMs > 0: the session ends this long after the simulated clock's start (else a day later): a session close to its
+	// end is a session all the same, and what is issued for it lives as long as for any other
+	ExpiresInMs int64 `json:"expires_in_ms,omitempty"`
 }
 
 type c06Knobs struct {
@@ -263,6 +267,9 @@ func c06Session(n int, s *c06Sess) (*saml.Session, []string) {
 		Index: mk("index"), SubjectID: mk("subjectid"), UserName: mk("username"), UserEmail: mk("email"), UserCommonName: mk("cn"),
 		UserSurname: mk("sn"), UserGivenName: mk("givenname"), UserScopedAffiliation: mk("affiliation"), EduPersonPrincipalName: mk("eppn"),
 	}
+	if s.ExpiresInMs > 0 {
+		ses.ExpireTime = time.Date(2000, 1, 1, 0, 0, 0, 0, time.UTC).Add(ms(s.ExpiresInMs))
+	}
 	own = append(own, ses.ID)
 	for j := 0; j < s.Groups; j++ {
 		v := marker("grp", n*10+j)
@@ -408,7 +415,12 @@ func genEgress(g *Rng, tier string) *Plan {
 			}
 		}
 		if g.Bool(0.3) {
-			s.Format = Pick(g, "urn:oasis:names:tc:SAML:1.1:nameid-format:emailAddress", "urn:oasis:names:tc:SAML:2.0:nameid-format:persistent")
+			s.Format = Pick(g, "urn:oasis:names:tc:SAML:1.1:nameid-format:emailAddress", "urn:oasis:names:tc:SAML:2.0:nameid-format:persistent",
+				"urn:oasis:names:tc:SAML:2.0:nameid-format:transient", "urn:oasis:names:tc:SAML:2.0:nameid-format:transient", "urn:oasis:names:tc:SAML:1.1:nameid-format:unspecified",
+				"urn:oasis:names:tc:SAML:2.0:nameid-format:entity", "urn:oasis:names:tc:SAML:2.0:nameid-format:kerberos")
+		}
+		if g.Bool(0.2) {
+			s.ExpiresInMs = Pick(g, int64(30_000), 5_000, 100_000, k.MaxIssueDelayMs+2_000, 600_000)
 		}
 		if g.Bool(0.2) {
 			s.Empty = append(s.Empty, "nameid") // a session provider that identifies the user through attributes only
